@@ -151,6 +151,7 @@ class Engine:
         self._ground_cache = {}
         self.accessed_param_keys = set()
         self.accessed_key_terms = []
+        self.numeric_param_keys = set()
         self.loop_counter = {}
         self.current_file = None
 
